@@ -4,6 +4,7 @@ from props.common import svt, gens, summarize_cfg, first_difference, run_status
 
 ID = "C04"
 LEVEL = "exploration"
+TAG_KEYS = True   # violation keys get the configuration feature tag appended (engine.feature_tag)
 RULE = ("Hypothesis draws a small (configuration, content, N; lp 2..16, tiles, TPL, RC modes) and 2-3 schedules: H1 perturbation strings seed:permille:max_us "
         "(1-30% of the mutex/semaphore/cond-var wrapper calls yield or sleep 0..2 ms, per-thread decision streams) optionally combined with a CPU squeeze to 1-3 cores "
         "(sched_setaffinity via taskset). Oracle: packets (bytes+metadata) and recon of every perturbed run equal the unperturbed run of the same case, and every run "
@@ -32,8 +33,10 @@ def strategy(tier):
         cnt = draw(gens.content(kinds=(2, 3, 5, 7)))
         scheds = []
         for _ in range(draw(st.integers(2, 3))):
-            sd = dict(seed=draw(st.integers(0, 10**6)), permille=draw(st.sampled_from([10, 30, 100, 300])), max_us=draw(st.sampled_from([0, 50, 300, 2000])),
-                      cpus=draw(st.sampled_from([0, 0, 1, 2, 3])))
+            # (permille, max_us) pairs with a bounded expected delay per sync point (<= ~30 us) so that a perturbed run stays within
+            # a few times the unperturbed run time: many tiny yields ... few long sleeps
+            pm, mu = draw(st.sampled_from([(300, 0), (300, 50), (100, 0), (100, 300), (30, 300), (30, 1000), (10, 2000), (3, 5000)]))
+            sd = dict(seed=draw(st.integers(0, 10**6)), permille=pm, max_us=mu, cpus=draw(st.sampled_from([0, 0, 0, 1, 2, 3])))
             scheds.append(sd)
         case = gens.case_from(c, n, tp, cnt)
         case["scheds"] = scheds
@@ -48,7 +51,7 @@ def run_with(base, sd):
         env["SVT_VERIF_SCHED"] = "%d:%d:%d" % (sd["seed"], sd["permille"], sd["max_us"])
         if sd.get("cpus"):
             env["SVTDRV_TASKSET"] = ",".join(str(i) for i in range(sd["cpus"]))
-    return svt.run_encode(base, "rel", timeout=400, env=env)
+    return svt.run_encode(base, "rel", timeout=240, env=env)
 
 
 def run_case(case, tier):
